@@ -62,8 +62,11 @@ def plan(quick):
             ("cdn", dict(cdn_grid="quick")),
         ]
     return [
-        ("exec", dict(maxes=[0, 1, 2, 3, 4, 5], inits=[0, 10, 100, 1000], maxbs=[0, 10, 100, 1000],
+        ("exec", dict(maxes=[0, 1, 2, 3, 4], inits=[0, 10, 100, 1000], maxbs=[0, 10, 100, 1000],
                       mults=["0", "0.5", "1", "1.5", "2", "3", "10", "nan", "-1", "inf", "1e308"], hints=[0, 30, 2000])),
+        # max_attempts = 5 has as many scripts as 0..4 together: fewer multipliers there (budget)
+        ("exec", dict(tag="exec5", maxes=[5], inits=[0, 10, 100, 1000], maxbs=[0, 10, 100, 1000],
+                      mults=["0.5", "1", "2", "10", "-1"], hints=[0, 30, 2000])),
         ("kinds", {}),
         ("hostile", dict(maxes=[1, 3], inits=[0, 100, SAT], maxbs=[0, 100, SAT],
                          mults=["2", "10", "0.5", "inf", "nan", "1e308", "-1", "-0.5", "-inf", "-1e308"], hints=[30], hint_huge=True)),
@@ -149,17 +152,18 @@ def count_programs(path):
 
 
 def mc_and_run(ctx, family, kw, kd):
-    cfg = ctx.path(f"mc_{family}.cfg")
+    name = kw.get("tag", family)
+    cfg = ctx.path(f"mc_{name}.cfg")
     lib.write_cfg(cfg, constants(family, (), **kw), "MCInit", "MCNext", invariants=INVARIANTS)
-    progs = ctx.path(f"prog_{family}.ndjson")
+    progs = ctx.path(f"prog_{name}.ndjson")
     r = lib.tlc(ctx, MODULE_MC, cfg, tagged_out={"PROGRAM": progs}, timeout=1500)
     ctx.cov["states"] += r["distinct"]
     ctx.cov["transitions"] += r["generated"]
     n = r["counts"]["PROGRAM"]
-    ctx.stage("mc", family=family, distinct_states=r["distinct"], programs=n, wall_s=r["wall_s"])
-    trace = ctx.path(f"trace_{family}.ndjson")
+    ctx.stage("mc", family=name, distinct_states=r["distinct"], programs=n, wall_s=r["wall_s"])
+    trace = ctx.path(f"trace_{name}.ndjson")
     d = run_programs(ctx, family, progs, trace)
-    ctx.stage("run", family=family, programs=d.get("programs"), events=d.get("events"), hangs=d.get("hangs"), wall_s=d["wall_s"])
+    ctx.stage("run", family=name, programs=d.get("programs"), events=d.get("events"), hangs=d.get("hangs"), wall_s=d["wall_s"])
     if d.get("programs") != n:
         raise lib.ToolError(f"driver executed {d.get('programs')} of {n} programs ({family})")
     return progs, trace, n
@@ -290,7 +294,7 @@ def run(ctx):
             s, e = lib.run_of_line(ls, min(len(ls) - 20, 30000))
             ctx.cov["samples"].append({"source": f"MC_Retry family={family}", "trace": [json.loads(x) for x in ls[s:e]]})
         judge_trace(ctx, trace, f"MC_Retry family={family}", kd)
-        if family == "exec":
+        if family == "exec" and "binding_selftest" not in ctx.cov:
             selftest(ctx, trace, kd)
         os.remove(trace)
         os.remove(progs)
